@@ -425,7 +425,7 @@ pub fn read_aiger(spec: &Spec, b: &[u8]) -> Reading {
             Some(false)
         };
         aig.latches.push((if binary { None } else { Some(state) }, next, init));
-        code += 2;
+        code = code.wrapping_add(2);
     }
     single!(o, aig.outputs, false);
     single!(bb, aig.bad, false);
@@ -483,7 +483,7 @@ pub fn read_aiger(spec: &Spec, b: &[u8]) -> Reading {
                 return Reading::MustReject(format!("delta {d1} exceeds the first input {in0}"));
             }
             aig.ands.push((None, in0 as u64, (in0 - d1) as u64));
-            code += 2;
+            code = code.wrapping_add(2);
         } else {
             let Some(line) = next_line(&mut pos) else {
                 return Reading::Undecided("missing and-gate line".into());
